@@ -1776,6 +1776,35 @@ func tablesC19(c *Ctx) {
 			}
 			return true
 		})
+		// ... and in the helpers GetType hands the decision to (constants of type Type among the operands of their
+		// compiled instructions)
+		if gtf := w.Func("sshutils/cert", "GetType"); gtf != nil {
+			for _, tf := range w.Tree(gtf) {
+				if tf == gtf || tf.Pkg == nil || tf.Pkg.Pkg != p.Types {
+					continue
+				}
+				for _, blk := range tf.Blocks {
+					for _, ins := range blk.Instrs {
+						for _, op := range ins.Operands(nil) {
+							if op == nil || *op == nil {
+								continue
+							}
+							k, ok := (*op).(*ssa.Const)
+							if !ok || k.Value == nil || !isType(k.Type()) {
+								continue
+							}
+							for _, kc := range consts {
+								if constant.Compare(kc.Val(), token.EQL, k.Value) {
+									if _, seen := produced[kc]; !seen {
+										produced[kc] = tf.Pos()
+									}
+								}
+							}
+						}
+					}
+				}
+			}
+		}
 		var ks []*types.Const
 		for k := range produced {
 			ks = append(ks, k)
